@@ -36,7 +36,7 @@ def corpus_cases():
             if os.path.isdir(p):
                 # perm_<group>_<variant>/ : the same program with its declarations in another order
                 label = fn.rsplit("_", 1)[0] if fn.startswith("perm_") else fn
-                out.append((label, {f: open(os.path.join(p, f)).read() for f in sorted(os.listdir(p)) if f.endswith(".vcl")}))
+                out.append((label, {f: open(os.path.join(p, f)).read() for f in sorted(os.listdir(p)) if f.endswith((".vcl", ".json"))}))
             elif fn.endswith(".vcl"):
                 out.append((fn, {"main.vcl": open(p).read()}))
     return out
@@ -74,19 +74,21 @@ def ms_noloc(o):
 
 
 def go_inc_events(o, prefix="m"):
-    """projection of the Go include expansion onto the model's events"""
+    """projection of the Go include expansion onto the model's events (module files <prefix>N, snippets snippet::gN)"""
     stmts = []
     for r in o.get("resolved", []):
         stmts.append(int(r[5:]) if r.startswith("sub:t") else r)
     errs = []
+    pat = re.compile(r"(?:/%s|: %s|snippet::g)(\d+)" % (prefix, prefix))
     for d in o["diags"]:
-        if d[0] != "include/module-load-failed":
+        if d[0] not in ("include/module-load-failed", "include/module-not-found"):
             continue
         m = d[5]
-        if m.startswith("Cyclic include detected"):
-            errs.append(("c", int(m.split("/" + prefix)[-1].split(".vcl")[0])))
-        elif m.startswith("Failed to resolve include file"):
-            errs.append(("m", int(m.split(": " + prefix)[-1].split(".vcl")[0])))
+        num = pat.search(m)
+        if m.startswith("Cyclic include detected") and num:
+            errs.append(("c", int(num.group(1))))
+        elif (m.startswith("Failed to resolve include file") or "was not found among Fastly managed snippets" in m) and num:
+            errs.append(("m", int(num.group(1))))
         else:
             errs.append(("?", m))
     return stmts, errs, bool(o["fatal"])
@@ -253,6 +255,11 @@ def run(ctx):
         else:
             subs, others = g.program()
             progs.append(("gen-%d" % pi, subs, others, None))
+    scale_split = {}
+    for si in range(40 if thorough else 5):
+        subs, nmod = g.scale_program()
+        scale_split[len(progs)] = nmod
+        progs.append(("scale-%d" % si, subs, [], None))
     cfg_dirs = []
     for pi, (label, subs, others, files) in enumerate(progs):
         if files is not None:
@@ -279,11 +286,22 @@ def run(ctx):
             mods = {i: [t for t in list(range(1, k + 1)) + [9] if rng.random() < 0.4] for i in range(1, k + 1)}
             extra.update({fn: t for fn, t in LG.graph_files([], mods).items() if fn != "main.vcl"})
             inc = tuple("m%d" % i for i in range(1, k + 1) if rng.random() < 0.7)
+        if pi in scale_split:
+            perms = perms[:2]
         for order in perms:
             text = LG.render(subs, others, list(order), inc)
             mreq, ids = LG.model_decls(subs, list(order))
             f = dict(extra)
             f["main.vcl"] = text
+            if scale_split.get(pi):
+                # many includes: the declarations are spread over module files included from main, in the same order
+                k = scale_split[pi]
+                chunks = [list(order)[j::1][:0] for j in range(0)]
+                size = max(1, len(order) // (k + 1))
+                parts = [list(order)[j:j + size] for j in range(0, len(order), size)]
+                f["main.vcl"] = LG.render(subs, others, parts[0], ["mod%d" % j for j in range(1, len(parts))])
+                for j in range(1, len(parts)):
+                    f["mod%d.vcl" % j] = LG.render(subs, [], parts[j])
             configs.append((pi, order, f, mreq, ids))
     for ci, (pi, order, files, mreq, ids) in enumerate(configs):
         cfg_dirs.append(write_cfg(os.path.join(base, "p"), ci, files))
@@ -422,6 +440,7 @@ def run(ctx):
         "include_graphs": len(graphs), "include_graph_kinds": dict(graph_kinds), "include_graphs_exhaustive_up_to_modules": exhaustive_k,
         "include_graphs_with_cycle": cyc_graphs, "include_expansion_agree": inc_agree, "include_graph_lints_ok": graph_lints,
         "nested_include_graphs": len(sgraphs), "nested_include_agree": nested_agree, "nested_include_graphs_with_cycle": nested_cyc,
+        "scale_programs": len(scale_split), "scale_sizes": sorted(len(progs[pi][1]) for pi in scale_split),
         "programs": len(progs), "shaped_call_graph_programs": sum(1 for p in progs if p[0].startswith("shape-")), "configurations": len(configs), "runs_per_configuration": RUNS,
         "configurations_linted": lint_ok, "parse_rejected": parse_rejected,
         "scope_inference_agree": scope_agree, "recursion_set_agree": cyc_agree, "programs_with_recursion": progs_with_cycle,
